@@ -173,7 +173,81 @@ def probe(make_model):
                 lhs = float(np.dot(np.asarray(M.forward(x), dtype=float).ravel(), y))
                 rhs = float(np.dot(x, np.asarray(M.adjoint(y), dtype=float).ravel()))
                 res["ip"].append((x.tolist(), y.tolist(), lhs, rhs))
+        probe_reps(make_model, M, res)
     return res
+
+
+REPS = ("cu_par", "cu_fun", "samples")
+
+
+def _plain(v):
+    """result of a model call as a plain float ndarray (CUQIarray / Samples unwrapped)"""
+    if hasattr(v, "samples") and not isinstance(v, np.ndarray):
+        return np.asarray(v.samples, dtype=float)
+    return np.asarray(v.to_numpy() if hasattr(v, "to_numpy") else v, dtype=float)
+
+
+def probe_reps(make_model, M, res):
+    """forward / adjoint / T.forward / T.adjoint on the same integer vectors given as (ii) CUQIarray in parameter
+    representation, (iii) CUQIarray flagged as function values, (iv) Samples — all carrying the model's own
+    geometry object.  res["rep"][(op, rep)] = (dim x 3) matrix of parameter-valued results, or None (+ _err)."""
+    from cuqi.array import CUQIarray
+    from cuqi.samples import Samples
+    n, m = res["n"], res["m"]
+    D, Rg = M.domain_geometry, M.range_geometry
+    r = np.random.RandomState(n * 17 + m + 5)
+    X = r.randint(-4, 5, size=(n, 3)).astype(float); Y = r.randint(-4, 5, size=(m, 3)).astype(float)
+    res["repX"], res["repY"] = X, Y
+    res["rep"] = {}
+    # `a == b` is `a.__eq__(b)` = isinstance(b, type(a)) and equal attributes: asymmetric for sub/super-classes
+    res["geom_eq_asym"] = False; res["geom_eq_raises"] = False
+    try:
+        e1, e2 = bool(D == Rg), bool(Rg == D)
+        res["geom_eq_asym"] = bool(type(D) is not type(Rg) and (e1 or e2))
+    except Exception:
+        # `_all_values_equal` indexes list-valued attributes of different lengths (Discrete variables, StepExpansion
+        # index lists): comparing the two geometries raises IndexError
+        res["geom_eq_raises"] = True
+    ops = (("fwd", lambda: M, "forward", D, X), ("adj", lambda: M, "adjoint", Rg, Y),
+           ("tfwd", lambda: make_model().T, "forward", Rg, Y), ("tadj", lambda: make_model().T, "adjoint", D, X))
+    for op, getm, meth, geo, V in ops:
+        for rep in REPS:
+            try:
+                if op.startswith("t"):
+                    # the transposed model must carry geometry objects equal to the ones the inputs are tagged with
+                    base = make_model(); base.domain_geometry = D; base.range_geometry = Rg
+                    f = getattr(base.T, meth)
+                else:
+                    f = getattr(M, meth)
+                if rep == "samples":
+                    out = _plain(f(Samples(V.copy(), geometry=geo)))
+                else:
+                    colsout = []
+                    for j in range(V.shape[1]):
+                        v = V[:, j].copy()
+                        arg = CUQIarray(v, is_par=True, geometry=geo) if rep == "cu_par" else \
+                            CUQIarray(np.asarray(geo.par2fun(v)), is_par=False, geometry=geo)
+                        colsout.append(_plain(f(arg)).reshape(-1))
+                    out = np.column_stack(colsout)
+                res["rep"][(op, rep)] = out
+            except Exception as e:
+                res["rep"][(op, rep)] = None; res["rep"][(op, rep, "err")] = repr(e)[:100]
+
+
+def rep_expected(res, fwd, adj, tfwd, tadj):
+    """what each (op, rep) must return given the four ndarray-level matrices (None = raises):
+    forward/adjoint do not depend on the representation; `T` on geometry-tagged CUQIarrays skips the second
+    application of the geometry maps (x.geometry == geometry -> funvals / .parameters as they are), i.e. it is
+    the plain swap; Samples are iterated as plain parameter vectors (same as ndarray input)."""
+    X, Y = res["repX"], res["repY"]
+    exp = {}
+    for rep in REPS:
+        exp[("fwd", rep)] = None if fwd is None else fwd @ X
+        exp[("adj", rep)] = None if adj is None else adj @ Y
+        tagged = rep != "samples"
+        exp[("tfwd", rep)] = (None if adj is None else adj @ Y) if tagged else (None if tfwd is None else tfwd @ Y)
+        exp[("tadj", rep)] = (None if fwd is None else fwd @ X) if tagged else (None if tadj is None else tadj @ X)
+    return exp
 
 
 def oracle_linear(ctx, res, keyf, desc, adjoint_pair=True):
@@ -216,6 +290,32 @@ def oracle_linear(ctx, res, keyf, desc, adjoint_pair=True):
     if tb:
         ctx.fail(keyf("T"), desc, "T swaps forward and adjoint (and transposes the matrix)", tb, "transposed model is not the swap of forward and adjoint")
         bad.add("T")
+    # ---- every input representation: same parameter-valued result as for plain arrays, T is the swap, identity holds
+    if "rep" in res:
+        X, Y = res["repX"], res["repY"]
+        demanded = rep_expected(res, F, Ad, Ad, F)      # the property: T.forward = adjoint, T.adjoint = forward for every input kind
+        rb, tb2 = [], []
+        for (op, rep), want in demanded.items():
+            got = res["rep"].get((op, rep))
+            if got is None or differ(got, want):
+                (tb2 if op.startswith("t") else rb).append(f"{op}({rep})" + ("" if got is not None else " raises: " + res["rep"].get((op, rep, "err"), "")))
+        if adjoint_pair and not rb and "adjoint" not in bad:
+            for rep in REPS:
+                lhs = (res["rep"][("fwd", rep)] * Y).sum(axis=0); rhs = (X * res["rep"][("adj", rep)]).sum(axis=0)
+                if not vclose(lhs, rhs, 1e-9):
+                    rb.append(f"<forward({rep}) , y> != <x, adjoint({rep})>")
+        asym = ":geometry-eq-asymmetric" if res.get("geom_eq_asym") else ":geometry-eq-raises" if res.get("geom_eq_raises") else ""
+        if rb:
+            ctx.fail(keyf("repr" + asym), {**desc, "x": X.tolist(), "y": Y.tolist()}, "forward/adjoint give the same parameters for ndarray, CUQIarray (par / fun) and Samples inputs",
+                     rb, "forward/adjoint depend on the representation of their input")
+            bad.add("repr")
+        if tb2 and not (tb and all("(samples)" in t for t in tb2)):
+            ctx.fail(keyf("T-repr" + asym), {**desc, "x": X.tolist(), "y": Y.tolist()}, "T.forward = adjoint and T.adjoint = forward for CUQIarray / Samples inputs",
+                     tb2, "transposed model is not the swap for some input representation")
+            bad.add("T")
+        elif tb2:
+            # Samples are iterated as plain vectors: the same failure as for ndarray input (already reported under T)
+            pass
     return bad
 
 
@@ -240,6 +340,20 @@ def tie_linear(ctx, out, res, tiekey, desc, exact, keyf, adjoint_pair=True):
                 ctx.disagree(tiekey, {**desc, "what": name}, "evaluates", res.get(name + "_err"), f"{name}: implementation raises"); ok = False
             elif not same(Mm, impl, exact):
                 ctx.disagree(tiekey, {**desc, "what": name}, f[name][:300], str(impl.tolist())[:300], f"{name} differs"); ok = False
+        # representations: the model's maps do not depend on how the input is wrapped (tagged inputs to T: plain swap)
+        if "rep" in res and not res.get("geom_eq_asym") and not res.get("geom_eq_raises") and "fwd" in f and f["fwd"] != "err":
+            pf = {k: (None if f.get(k, "err") == "err" else parse_L(f[k])) for k in ("fwd", "adj", "tfwd", "tadj")}
+            pred = rep_expected(res, pf["fwd"], pf["adj"], pf["tfwd"], pf["tadj"])
+            for (op, rep), want in pred.items():
+                if op.startswith("t") and rep == "samples" and "tfwd" not in f:
+                    continue
+                got = res["rep"].get((op, rep))
+                if want is None and got is None:
+                    continue
+                if want is None or got is None or not same(want, got, False):
+                    ctx.disagree(tiekey, {**desc, "what": f"{op}({rep})"}, None if want is None else want.tolist(),
+                                 res["rep"].get((op, rep, "err")) if got is None else got.tolist(), f"{op} on {rep} input differs from the model's map")
+                    ok = False
     if not ok:
         # failing-input search at the disagreeing case: does the property itself fail here?
         probe_ctx = _Collector()
@@ -319,7 +433,7 @@ def _run(ctx):
         jobs.append((f"geom step:{n}:{s}", h_ref))
 
     # ================================================================ LinearModel under every geometry pair
-    def lin_case(gd, gr, kind, sparse, wrong_adjoint=False, tag="", A_fixed=None, funcs=None, casekind=None):
+    def lin_case(gd, gr, kind, sparse, wrong_adjoint=False, tag="", A_fixed=None, funcs=None, casekind=None, preserve=None):
         nD, nR = gd.fun_dim, gr.fun_dim
         A = nrs.randint(-3, 4, size=(nR, nD)).astype(float) if A_fixed is None else np.asarray(A_fixed, dtype=float)
         if wrong_adjoint:
@@ -330,7 +444,8 @@ def _run(ctx):
             B = A.T.copy()
         fam = "expansion" if "expansion" in (gd.family, gr.family) else "plain"
         exact = gd.exact and gr.exact
-        desc = {"kind": kind, "dom": gd.label, "rng": gr.label, "dom_token": gd.token[:40], "rng_token": gr.token[:40],
+        keep_subclass = (rng.random() < 0.5) if preserve is None else preserve
+        desc = {"kind": kind, "callables_keep_ndarray_subclass": keep_subclass, "dom": gd.label, "rng": gr.label, "dom_token": gd.token[:40], "rng_token": gr.token[:40],
                 "A": A.tolist(), "sparse": sparse, "wrong_adjoint": wrong_adjoint}
 
         def make_model():
@@ -343,6 +458,11 @@ def _run(ctx):
             fs_d, fs_r = gd.fun_shape, gr.fun_shape
             fwd = lambda x: (A @ np.asarray(x).ravel()).reshape(fs_r)
             adj = lambda y: (B @ np.asarray(y).ravel()).reshape(fs_d)
+            if keep_subclass:
+                # numpy arithmetic directly on the argument: a CUQIarray input gives a CUQIarray output that
+                # inherits the INPUT's geometry and is_par flag
+                fwd = lambda x: (A @ x.ravel()).reshape(fs_r)
+                adj = lambda y: (B @ y.ravel()).reshape(fs_d)
             if funcs is not None:
                 fwd, adj = funcs
             rgeo = Rg if gr.label not in ("Default1D", "Default2D") else (gr.fun_shape[0] if gr.label == "Default1D" else tuple(gr.fun_shape))
@@ -434,6 +554,41 @@ def _run(ctx):
         alias_cases.append(("image-ravel", gI(r, c), g1("Continuous1D", N), np.eye(N), (lambda X: X.ravel(), lambda y, r=r, c=c: y.reshape(r, c))))
     for (name, gd_, gr_, A_, fa) in alias_cases:
         lin_case(gd_, gr_, "fn", "dense", tag="@alias:" + name, A_fixed=A_, funcs=fa, casekind="lin-fn-alias-" + name)
+
+    # ---- domain and range geometries of the SAME class and parameter size but different parameters, with operators
+    # that keep the ndarray subclass (matrix-backed `M @ x`, callables doing arithmetic on their argument): a CUQIarray
+    # output then carries the INPUT's geometry and must still be converted with the model's RANGE geometry.
+    from cuqi.geometry import Continuous2D as _C2, KLExpansion as _KL
+    m4 = (lambda x: 4.0 * x, lambda x: x / 4.0); m2 = (lambda x: 2.0 * x, lambda x: x / 2.0)
+    def gM(n, mp, lab):
+        return GSpec(lab, "expansion", lambda: _MG(Continuous1D(n), map=mp[0], imap=mp[1]), exact=True, squeezes=False)
+    def gS(n, s_, h=1.0):
+        return GSpec("StepExpansion", "expansion", lambda: _SE(h * np.arange(n), n_steps=s_), f"step:{n}:{s_}", exact=False)
+    def gK(n, k, dec=2.5):
+        return GSpec("KLExpansion", "expansion", lambda: _KL(np.linspace(0, 1, n), decay_rate=dec, num_modes=k), exact=False)
+    def gC2(r, c):
+        return GSpec("Continuous2D", "plain", lambda: _C2((r, c)), f"imgCs:{r}:{c}")
+    same_class = [
+        (gI(2, 3, "C"), gI(2, 3, "F"), ("fn",)), (gI(2, 3, "F"), gI(2, 3, "C"), ("fn",)), (gI(2, 3, "C"), gI(3, 2, "C"), ("fn",)),
+        (gI(2, 2, "F"), gI(2, 2, "C"), ("fn",)), (gI(4, 2, "C"), gI(2, 4, "F"), ("fn",)),
+        (gC2(2, 3), gC2(3, 2), ("fn",)), (gC2(3, 2), gC2(2, 3), ("fn",)),
+        (gM(3, m4, "Mapped-scale"), gM(3, m2, "Mapped-scale"), ("mb", "fn")), (gM(4, m2, "Mapped-scale"), gM(4, m4, "Mapped-scale"), ("mb", "fn")),
+        (gS(4, 2), gS(6, 2), ("mb", "fn")), (gS(5, 3), gS(4, 3), ("mb", "fn")), (gS(4, 2), gS(4, 2, h=2.0), ("mb", "fn")),
+        (gK(4, 3), gK(6, 3), ("mb", "fn")), (gK(5, 5, 2.5), gK(5, 5, 1.0), ("mb", "fn")),
+    ]
+    for gd_, gr_, kinds in same_class:
+        for kd in kinds:
+            lin_case(gd_, gr_, kd, "dense", tag="@same-class", preserve=True, casekind="lin-same-class-" + kd)
+    # the class of inputs where geometry equality is asymmetric: `_DefaultGeometry1D.__eq__` accepts every Continuous1D
+    # subclass with the same grid, so a default domain "equals" a StepExpansion range on the grid 0..n-1 and the
+    # CUQIarray output is never projected: known finding `LinearModel:repr:geometry-eq-asymmetric:*`
+    w_c4 = GSpec("Default1D", "plain", lambda: _D1(4), "id:4")
+    lin_case(w_c4, gS(4, 2), "mb", "dense", tag="@witness:geometry-eq", preserve=True, casekind="lin-geometry-eq")
+    lin_case(gS(4, 2), w_c4, "mb", "dense", tag="@witness:geometry-eq", preserve=True, casekind="lin-geometry-eq")
+    # geometries whose comparison raises (list-valued attributes of different lengths): `LinearModel:repr:geometry-eq-raises:*`
+    lin_case(g1("Discrete", 3), g1("Discrete", 2), "mb", "dense", tag="@witness:geometry-eq", preserve=True, casekind="lin-geometry-eq")
+    lin_case(g1("Discrete", 2), g1("Discrete", 4), "fn", "dense", tag="@witness:geometry-eq", preserve=True, casekind="lin-geometry-eq")
+    lin_case(gS(4, 2), gS(4, 3), "mb", "dense", tag="@witness:geometry-eq", preserve=True, casekind="lin-geometry-eq")
 
     # malformed: matrix whose column count does not fit the domain geometry -> numpy raises in forward
     from cuqi.geometry import Continuous1D
